@@ -172,6 +172,9 @@ def sx_ast(e, index):
     op = e.op()
     un = {ca.OP_NEG: "neg", ca.OP_SQ: "sq", ca.OP_TWICE: "twice"}
     bi = {ca.OP_ADD: "add", ca.OP_SUB: "sub", ca.OP_MUL: "mul", ca.OP_FMIN: "fmin", ca.OP_FMAX: "fmax"}
+    if op == ca.OP_DIV and e.dep(1).is_constant() and float(e.dep(1)) not in (0.0, float("inf"), float("-inf")) \
+            and float(e.dep(1)) == float(e.dep(1)):
+        return ["mul", sx_ast(e.dep(0), index), ["const", 1.0 / float(e.dep(1))]]
     if op in un:
         return [un[op], sx_ast(e.dep(0), index)]
     if op in bi:
@@ -274,7 +277,46 @@ def handler(case):
         shutil.rmtree(root, ignore_errors=True)
 
 
+def run_sequence(api, root, case):
+    """Several option sets requested one after the other on the SAME folder (the cache file written for
+    one request is on disk when the next one arrives).  For every step: fresh = uncached compile with
+    that step's options; a = first call with {mode: True}; b = the same call again (must be served from
+    the cache).  Each of a, b has to match fresh."""
+    folder = os.path.join(root, "m")
+    os.makedirs(folder)
+    name = case["name"]
+    with open(os.path.join(folder, name + ".mo"), "w") as f:
+        f.write(case["text"])
+    mode = case.get("mode", "cache")
+    res = {"mode": mode, "steps": []}
+    for opts in case["steps"]:
+        rec = {}
+        ref = dict(opts)
+        ref["cache"] = False
+        ref["codegen"] = False
+        if mode == "cache":
+            ref["expand_mx"] = True
+        try:
+            rec["fresh"] = observe(api.transfer_model(folder, name, ref))
+        except Exception as e:  # noqa
+            rec["fresh_exc"] = type(e).__name__
+        copts = dict(opts)
+        copts[mode] = True
+        for key in ("a", "b"):
+            c0 = _state["compiles"]
+            try:
+                rec[key] = observe(api.transfer_model(folder, name, dict(copts)))
+            except Exception as e:  # noqa
+                rec[key + "_exc"] = type(e).__name__
+                rec[key + "_msg"] = str(e)[:200].replace(root, "<root>")
+            rec[key + "_compiles"] = _state["compiles"] - c0
+        res["steps"].append(rec)
+    return res
+
+
 def run_case(api, root, case):
+    if "steps" in case:
+        return run_sequence(api, root, case)
     folder = os.path.join(root, "m")
     os.makedirs(folder)
     name = case["name"]
